@@ -368,7 +368,7 @@ func checkMain(repo, verifRoot, prop, tier, replayFile string, verbose bool) int
 		}
 		if kf != nil {
 			kf.used = true
-			knownLines = append(knownLines, fmt.Sprintf("KNOWN-FINDING: property=%s %s [%s at %s]", prop, kf.text, r.Name, r.Pos))
+			knownLines = append(knownLines, fmt.Sprintf("KNOWN-FINDING: %s [%s at %s]", kf.text, r.Name, r.Pos))
 			continue
 		}
 		if isClaimed {
